@@ -131,7 +131,7 @@ def run_case(case, ctx):
             gmin, gmax = gen.grids(rng, rows, cols, A, B, "constant")
             ctx.gate("constant_grid_vs_scalar")
         else:
-            gmin, gmax = gen.grids(rng, rows, cols, A, B, ["random", "points", "rowwise", "band", "pointvar"][int(rng.integers(0, 5))])
+            gmin, gmax = gen.grids(rng, rows, cols, A, B, ["random", "points", "rowwise", "band", "pointvar", "float"][int(rng.integers(0, 6))])
             ctx.gate("grid_of_equal_width_intervals", int(bool((gmax - gmin == (gmax - gmin).flat[0]).all()) and bool((gmin != gmin.flat[0]).any())))
             ctx.gate("grid_vs_hull")
         g = cost_volume(pipe, *ds((gmin, gmax)), after_kind)
